@@ -185,7 +185,7 @@ def jHOp (j : Json) : Except String HOp := do
   let j := dropMeta j
   match ← jArr j with
   | .str "q" :: _ => pure (.ask (← jQuery j))
-  | [.str "fork"] => pure .fork
+  | .str "fork" :: _ => pure .fork  -- ["fork"] = copy.deepcopy, ["fork", "pickle"] = pickle round trip
   | _ => pure (.edit (← jMut j) (← givenOf j))
 
 def errClass : Err → Json
@@ -230,18 +230,28 @@ def idsJ (s : State) : Json := .arr (s.ids.map fun kv => Json.arr #[.str kv.1, .
 def obs (s : State) (out : Json) (ans : Json) : Json :=
   Json.mkObj [("out", out), ("ids", idsJ s), ("keys", keysJ s.content), ("ans", ans)]
 
+/-- one op of the history: the next state is `stepH`'s (the function `run` folds and the theorems are about); the
+    observation is read off the same `stepS` / `query` call.  For a query the answer of a freshly built model with
+    the same content (`freshAnswer`, the right-hand side of `C03_fresh_equiv`) is reported as well. -/
 def runAll (start : Nat) : Nat → State → List HOp → List Json → List Json
   | _, _, [], acc => acc.reverse
   | i, s, h :: rest, acc =>
-    let (s', o) : State × Json :=
+    let s' := stepH s h
+    let o : Json :=
+      if i < start then .null else
       match h with
       | .edit op given =>
-        let r := stepS s op given
-        (r.1, obs r.1 (match r.2 with | .ok () => .str "ok" | .error e => errClass e) .null)
+        obs s' (match (stepS s op given).2 with | .ok () => .str "ok" | .error e => errClass e) .null
       | .ask q =>
-        let r := query s q
-        (r.1, obs r.1 (.str "ok") (ansJ q r.2))
-      | .fork => (s, obs s (.str "ok") .null)
+        (obs s' (.str "ok") (ansJ q (query s q).2)).setObjVal! "fresh" (ansJ q (freshAnswer s.sigs s.content q))
+      | .fork => obs s' (.str "ok") .null
+    -- after the last op: the model built from scratch by `rebuild` (the left-hand side of `C03_refines_fresh`)
+    let o := if rest.isEmpty && !(i < start) then
+        let f := freshState s'
+        o.setObjVal! "rebuilt" (Json.mkObj [("ids", idsJ f), ("keys", keysJ f.content),
+          -- the declared names of `C03_one_name_space` / `Exact`: seven key lists and every surrogate's outputs
+          ("names", strsJ (contentNames f.content))])
+      else o
     runAll start (i + 1) s' rest (if i < start then acc else o :: acc)
 
 def handle (j : Json) : Except String Json := do
@@ -249,6 +259,8 @@ def handle (j : Json) : Except String Json := do
   let start ← match j.getObjVal? "from" with
     | .ok v => jNat v
     | .error _ => pure 0
-  pure (.arr (runAll start 0 C03.init ops []).toArray)
+  -- the build prefix is not observed: `run` itself carries the state through it
+  let s0 := run C03.init (ops.take start)
+  pure (.arr (runAll start start s0 (ops.drop start) []).toArray)
 
 end Driver.H_c03
